@@ -8,6 +8,8 @@ from sa.domains import HEXDIG, TCHAR, VCHAR, fmt_set
 from sa.effects import class_accesses
 from sa.selftest import Mutant, Silent
 from sa.source import AnalysisError, class_assigns
+from sa.props._lib_e_machine import PyRaise, exc_name
+from sa.props._lib_e_http import Harness, check_name_encoder_behaviour
 from sa.props._lib_e import (Unknown, assigns_self, call_in, calls_named, catches, check_hex_validators, check_name_encoder, check_token_validator, falsy_until_exit,
                              handlers_of, http_interp, is_const, is_falsy_return, local_values, make_env, only_nodes_until_exit,
                              ordered, resolve_local, risky_calls, self_attr, site_label, walk)
@@ -22,25 +24,26 @@ RESPOND = "self._respondToBadRequestAndDisconnect"
 FAIL = "self._failChooseTransferDecoder"
 CHOOSE = "self._maybeChooseTransferDecoder"
 
-TECHNIQUE = "finite-domain evaluation of validators + CFG dominance/must-pass over HTTPChannel"
+TECHNIQUE = 'AST interpretation of HTTPChannel on generated request streams vs an RFC 9112 reference decision'
 EXPLANATION = (
-    "Decides (a) by exhaustive evaluation of the source of _istoken/_ishexdigits/_hexint/_parseRequestLine over every byte value "
-    "(alone, leading, trailing, embedded; trailing LF/CRLF, NUL, blanks, empty - whatever idiom the validator is written in: loop, regex, set, translate) "
-    "and a structural line domain that exactly RFC 9110 tchar / VCHAR / two HTTP versions / three SP-separated parts are accepted; "
-    "header names handed out by _NameEncoder.encode passed _istoken and its process-wide cache is filled only after that test (helpers followed one level); "
-    "(b) on the CFGs of lineReceived/headerReceived/_maybeChooseTransferDecoder/_failChooseTransferDecoder/rawDataReceived that every "
-    "rejecting site writes the 400, closes, and stops (only falsy returns follow), that every falsy return is preceded by a 400, that "
-    "the results of headerReceived/_maybeChooseTransferDecoder are tested and a false result leaves without progress, and - by walking "
-    "_maybeChooseTransferDecoder under concrete header values - that Content-Length must be 1*DIGIT, only 'chunked' selects the chunked "
-    "decoder, any other coding / a second framing header fails; (c) body framing: length and decoder are installed together from the "
-    "same validated value, length==0 finishes immediately and anything else enters raw mode, the identity decoder splits at exactly "
-    "contentLength and hands the rest back, per-request framing state is reset before the application call-out, leftovers are buffered "
-    "before the hand-over. Not decided: agreement with an independent parser on accepted streams, obs-fold semantics, size-limit values."
+    'The repository source is never imported or run: an AST interpreter (sa/props/_lib_e_machine.py) executes the syntax trees of web/http.py, http_headers'
+    '.py, _abnf.py, protocols/basic.py, policies.py and internet/protocol.py with model collaborators (transport, clock, network producer, body file) whose'
+    ' inputs are observable; unknown externals are opaque values that fork the path. Helper methods are simply executed, so extract/inline-helper, guard-cl'
+    'ause, temporaries, comprehension refactorings do not matter. Decided: (a) _istoken/_ishexdigits/_hexint/_parseRequestLine evaluated over every byte va'
+    'lue in every position plus the regex/idiom pitfalls (trailing LF/CRLF, NUL, blanks, empty) accept exactly tchar / HEXDIG / method SP 1*VCHAR SP HTTP/1'
+    '.0|1.1; _NameEncoder.encode refuses an invalid name on every use (cache never serves an unvalidated name) and canonicalises; (b) grammar-generated hea'
+    'der blocks (Content-Length and Transfer-Encoding values, duplicates and conflicts in first/middle/last position, name case, optional whitespace, inval'
+    'id header lines, request lines, size limits, malformed chunked bodies) followed by a body and a pipelined second request, delivered whole, split in he'
+    "aders/body/after the body and line by line, are compared with a reference decision written out in the checker: either exactly '400 Bad Request', conne"
+    'ction closed, nothing handed to the application, or the request with exactly its body (handed over when its last byte arrives) followed by the intact '
+    'next request; (c) with a transport that keeps delivering after loseConnection nothing is processed after a 400 (known finding F19b for header-level re'
+    'jections); (d) handler bodies of the channel contain no strict decode/int/index on untrusted bytes. Not decided: obs-fold, agreement with an independe'
+    'nt parser beyond the generated grammar, query-string decoding.'
 )
 ASSUMPTIONS = [
-    "names imported from twisted.web._abnf / http_headers resolve to the functions of those modules",
-    "bytes/int builtins behave as in CPython (used by the finite evaluator)",
-    "method calls on self do not change self.length / self._transferDecoder except where the analysed function assigns them",
+    'CPython semantics for the builtin values the interpreter delegates to (bytes, int, list, dict, re on constant patterns)',
+    'the model transport delivers what it is given; LineReceiver/TimeoutMixin are interpreted from protocols/basic.py and policies.py',
+    'parse_qs / content file / zope interface checks are stubbed (outside the property)',
 ]
 
 
@@ -102,644 +105,333 @@ def _request_line(ctx, I):
                   detail=f"{len(dom)} lines agree with the RFC 9112 reference decision")
 
 
-# ------------------------------------------------------------------------------------------------------
-def _respond_sites(ctx, g, q, extra_ok=None):
-    sites = calls_named(g, RESPOND, "self.channel._respondToBadRequestAndDisconnect")
-    def logging_ok(nd):
-        if nd.kind == "stmt" and isinstance(nd.ast, ast.Expr) and isinstance(nd.ast.value, ast.Call) and (call_name(nd.ast.value) or "").startswith("self._log."):
-            return True
-        return bool(extra_ok and extra_ok(nd))
-    for n in sites:
-        wit = falsy_until_exit(g, n, logging_ok)
-        ctx.check(wit is None, "reject/stop-after-400", f"{q} | 400 {site_label(g, n)}",
-                  "after answering 400 the function goes on (state is changed / the request proceeds / a true result is returned)",
-                  witness=g.describe(wit))
-    return sites
+# ---- behaviour of the channel, by interpretation ------------------------------------------------------------------------
+BAD_REQUEST = b"HTTP/1.1 400 Bad Request\r\n\r\n"
+NEXT = b"POST /next HTTP/1.1\r\nHost: y\r\nContent-Length: 2\r\n\r\nhi"
 
 
-def _result_used(ctx, I):
-    """Every call of a validating method (returns False after having sent the 400) has its result tested; the
-    false outcome leaves the caller without any further effect, or the result is returned to the caller's caller."""
-    cls = ctx.cls(HTTP, "HTTPChannel")
-    callees = ("self.headerReceived", CHOOSE, FAIL)
-    count = 0
-    for m in [n for n in cls.body if isinstance(n, (ast.FunctionDef, ast.AsyncFunctionDef))]:
-        if not any(call_name(c) in callees for c in ast.walk(m) if isinstance(c, ast.Call)):
-            continue
-        g = ctx.cfg(m)
-        q = QC + m.name
-        for n in calls_named(g, *callees):
-            node = g.node(n)
-            call = call_in(node.ast, *callees)
-            count += 1
-            cons = ctx.construct(q, node.ast)
-            fails = (f"the boolean result of {call_name(call)}() is dropped: after the 400 the channel keeps parsing this request "
-                     "(it is later handed to the application when the transport keeps delivering, e.g. TLS until close_notify)")
-            if node.kind == "stmt" and isinstance(node.ast, ast.Return):
-                ctx.ok("reject/result-used", cons, "result returned to the caller")
-                continue
-            if node.kind == "test" and node.ast is call:
-                fs = [d for d, l in g.succ[n] if l == "F"]
-                wit = only_nodes_until_exit(g, fs, lambda nd: nd.kind == "stmt" and is_falsy_return(nd.ast))
-                ctx.check(wit is None, "reject/result-used", cons, "a false result does not stop processing: " + fails, witness=g.describe(wit))
-                continue
-            if node.kind == "stmt" and isinstance(node.ast, ast.Assign) and node.ast.value is call and \
-                    len(node.ast.targets) == 1 and isinstance(node.ast.targets[0], ast.Name):
-                var = node.ast.targets[0].id
-                tests = g.ids(lambda t: t.kind == "test" and isinstance(t.ast, ast.Name) and t.ast.id == var)
-                wit = g.must_pass([n], tests, exc=False) if tests else g.path([n], [g.exit], edge_ok=lambda a, b, l: l != "exc")
-                okk = bool(tests) and wit is None
-                if okk:
-                    for t in tests:
-                        fs = [d for d, l in g.succ[t] if l == "F"]
-                        w2 = only_nodes_until_exit(g, fs, lambda nd: nd.kind == "stmt" and is_falsy_return(nd.ast))
-                        if w2 is not None:
-                            okk, wit = False, w2
-                ctx.check(okk, "reject/result-used", cons, fails, witness=g.describe(wit))
-                continue
-            ctx.violation("reject/result-used", cons, fails, g.describe(g.path([g.entry], [n])))
-    ctx.floor("reject/result-used", count, 5)
-
-
-def _line_received(ctx, I):
-    f = ctx.func(HTTP, "HTTPChannel.lineReceived")
-    g = ctx.cfg(f)
-    q = QC + "lineReceived"
-    sites = _respond_sites(ctx, g, q)
-    ctx.need(sites, "400 sites in lineReceived")
-    param = f.args.args[1].arg
-    # request line: parsed by _parseRequestLine inside a handler that converts ValueError to 400
-    pn = calls_named(g, "_parseRequestLine")
-    ctx.need(pn, "call of _parseRequestLine in lineReceived")
-    for n in pn:
-        hs = [h for h in handlers_of(g, n) if catches(I, g.node(h).ast, "ValueError")]
-        wit = None
-        if hs:
-            for h in hs:
-                wit = wit or g.must_pass([h], sites, exc=False)
-        ctx.check(bool(hs) and wit is None, "request-line/invalid-gives-400", ctx.construct(q, g.node(n).ast),
-                  "a malformed request line (ValueError from _parseRequestLine) is not answered with 400",
-                  witness=g.describe(wit) if wit else "no handler catches ValueError")
-    # who may write the request-line fields
-    cls = ctx.cls(HTTP, "HTTPChannel")
-    parsed = set()
-    for n in pn:
-        st = g.node(n).ast
-        if isinstance(st, ast.Assign):
-            parsed |= {t.id for t in assigned_targets(st) if isinstance(t, ast.Name)}
-    acc = [a for a in class_accesses(ctx.mod(HTTP), cls, {"_command", "_path", "_version"}) if a.kind != "delete"]
-    for a in acc:
-        v = getattr(a.node, "value", None)
-        ctx.check(a.func == "HTTPChannel.lineReceived" and isinstance(v, ast.Name) and v.id in parsed, "request-line/fields-from-parser",
-                  ctx.construct(Q + a.func, a.node), f"self.{a.attr} is assigned from something other than the validated _parseRequestLine result")
-    ctx.floor("request-line/fields-from-parser", len(acc), 3)
-
-    # end of headers ------------------------------------------------------------------------------------
-    base = {param: b"", "self.__first_line": 0}
-    done = calls_named(g, "self.allContentReceived")
-    raw = calls_named(g, "self.setRawMode")
-    ahr = calls_named(g, "self.allHeadersReceived")
-    hr = calls_named(g, "self.headerReceived")
-    ctx.need(done and raw and ahr and hr, "allContentReceived / setRawMode / allHeadersReceived / headerReceived calls in lineReceived")
-    for v in (0, None, 1, 5):
-        env = make_env(dict(base, **{"self.__header": b"", "self.length": v}))
-        vis = walk(g, I, env)
-        if v == 0:
-            ok = any(n in vis for n in done) and not any(n in vis for n in raw)
-            why = "a request without body (length 0) is not completed at the end of its headers / enters raw mode"
-        else:
-            ok = any(n in vis for n in raw) and not any(n in vis for n in done)
-            why = (f"with self.length == {v!r} (body expected{' - chunked' if v is None else ''}) the request is handed over at the end of the "
-                   "headers: its body bytes are then parsed as the next request")
-        ctx.check(ok, "framing/body-mode-from-length", f"{q} | end of headers, self.length == {v!r}", why)
-    # the last (and every) header is processed, and the stale header text is cleared
-    env = make_env(dict(base, **{"self.__header": b"Transfer-Encoding: chunked"}))
-    vis = walk(g, I, env)
-    ctx.check(any(n in vis for n in hr), "headers/last-header-processed", f"{q} | end of headers with a pending header",
-              "the last header line of a request is not passed to headerReceived (a framing header in last position is ignored)")
-    env = make_env({param: b"A: b", "self.__first_line": 0, "self.__header": b"Transfer-Encoding: chunked"})
-    vis = walk(g, I, env)
-    store = assigns_self(g, "__header", lambda v: isinstance(v, ast.Name) and v.id == param)
-    ctx.check(any(n in vis for n in hr) and any(n in vis for n in store), "headers/every-header-processed", f"{q} | regular header line",
-              "a regular header line does not cause the pending header to be processed and the new line to be stored")
-    clears = assigns_self(g, "__header", lambda v: is_const(v, b""))
-    wit = ordered(g, clears, ahr + done + raw)
-    ctx.check(bool(clears) and wit is None, "headers/stale-header-cleared", f"{q} | end of headers",
-              "the pending header text is not cleared at the end of the headers: it is prepended to the next request's headers",
-              witness=g.describe(wit))
-    # the hand-over calls happen only at the end of the headers
-    for n in done + raw + ahr:
-        env = make_env({param: b"A: b", "self.__first_line": 0})
-        ctx.check(n not in walk(g, I, env), "framing/hand-over-only-at-end-of-headers", ctx.construct(q, g.node(n).ast),
-                  "the request is completed / raw mode is entered on a non-empty header line")
-    # default: no framing header -> no body
-    ca = class_assigns(cls)
-    ctx.check("length" in ca and is_const(ca["length"], 0), "framing/default-no-body", QC + "length",
-              "the class default of HTTPChannel.length is not 0: a request without Content-Length/Transfer-Encoding would get a body")
-
-
-def _header_received(ctx, I):
-    f = ctx.func(HTTP, "HTTPChannel.headerReceived")
-    g = ctx.cfg(f)
-    q = QC + "headerReceived"
-    sites = _respond_sites(ctx, g, q)
-    ctx.need(sites, "400 sites in headerReceived")
-    rejecting = set(sites) | set(calls_named(g, CHOOSE, FAIL))
-    rets = g.ids(lambda n: n.kind == "stmt" and isinstance(n.ast, ast.Return))
-    for r in rets:
-        st = g.node(r).ast
-        if is_falsy_return(st):
-            wit = g.must_precede(rejecting, [r], exc=False)
-            ctx.check(wit is None, "reject/400-before-false", f"{q} | return {site_label(g, r)}",
-                      "headerReceived reports an invalid header without having answered 400", witness=g.describe(wit))
-    # every handler rejects
-    hs = g.ids(lambda n: n.kind == "handler")
-    for h in hs:
-        wit = g.must_pass([h], sites, exc=False)
-        ctx.check(wit is None, "reject/handler-rejects", f"{q} | {g.node(h).text()}",
-                  "a parse error caught in headerReceived is not answered with 400 (the malformed header is accepted)", witness=g.describe(wit))
-    line = f.args.args[1].arg
-    # colon split protected
-    splits = [n for n in g.ids(lambda n: n.kind == "stmt" and isinstance(n.ast, ast.Assign))
-              if any(isinstance(c, ast.Call) and call_attr(c) in ("split", "partition") and c.args and is_const(c.args[0], b":")
-                     and isinstance(c.func, ast.Attribute) and src(c.func.value) == line for c in walk_local(g.node(n).ast))]
-    ctx.check(bool(splits), "header/colon-required", q, "the header line is no longer split at the first colon")
-    name_var = val_var = None
-    for n in splits:
-        st = g.node(n).ast
-        c = next(c for c in walk_local(st) if isinstance(c, ast.Call) and call_attr(c) in ("split", "partition"))
-        tg = assigned_targets(st)
-        if call_attr(c) == "split":
-            ok = len(c.args) == 2 and is_const(c.args[1], 1) and len(tg) == 2 and \
-                any(catches(I, g.node(h).ast, "ValueError") for h in handlers_of(g, n))
-            ctx.check(ok, "header/colon-required", ctx.construct(q, st),
-                      "a header line without a colon is not rejected (split(b':', 1) unpacked into two names inside a ValueError handler expected)")
-        if len(tg) >= 2 and all(isinstance(t, ast.Name) for t in tg):
-            name_var, val_var = tg[0].id, tg[-1].id
-    # name canonicalised + validated
-    enc = [n for n in calls_named(g, "_nameEncoder.encode") if isinstance(g.node(n).ast, ast.Assign)]
-    ctx.check(bool(enc), "header/name-validated", q, "the header name is no longer passed through _nameEncoder.encode (token check + canonical case)")
-    canon = None
-    for n in enc:
-        st = g.node(n).ast
-        c = call_in(st, "_nameEncoder.encode")
-        ok = any(catches(I, g.node(h).ast, "InvalidHeaderName") for h in handlers_of(g, n)) and len(c.args) == 1 and \
-            isinstance(c.args[0], ast.Name) and c.args[0].id == name_var
-        ctx.check(ok, "header/name-validated", ctx.construct(q, st), "an invalid header name (InvalidHeaderName) is not caught and answered with 400")
-        canon = assigned_targets(st)[0].id if isinstance(assigned_targets(st)[0], ast.Name) else None
-    # value: OWS-stripped, NUL-free
-    strips = [n for n in g.ids(lambda n: n.kind == "stmt" and isinstance(n.ast, ast.Assign))
-              if any(isinstance(c, ast.Call) and call_attr(c) == "strip" and isinstance(c.func, ast.Attribute) and src(c.func.value) == val_var
-                     for c in walk_local(g.node(n).ast))]
-    stripped = None
-    for n in strips:
-        st = g.node(n).ast
-        c = next(c for c in walk_local(st) if isinstance(c, ast.Call) and call_attr(c) == "strip")
-        ok = len(c.args) == 1 and isinstance(c.args[0], ast.Constant) and isinstance(c.args[0].value, bytes) and set(c.args[0].value) == {32, 9}
-        ctx.check(ok, "header/ows-strip", ctx.construct(q, st),
-                  "the field value is stripped of more than SP/HTAB (bare CR, LF, VT, FF around a framing value are silently removed)")
-        t = assigned_targets(st)[0]
-        stripped = t.id if isinstance(t, ast.Name) else None
-    ctx.check(bool(strips), "header/ows-strip", q, "optional whitespace around the field value is not removed before the framing decision")
-    users = calls_named(g, CHOOSE) + calls_named(g, ".addRawHeader")
-    ctx.need(users, "_maybeChooseTransferDecoder / addRawHeader calls in headerReceived")
-    valname = stripped or val_var
-    for n in users:
-        node = g.node(n)
-        c = call_in(node.ast, CHOOSE, ".addRawHeader")
-        cons = ctx.construct(q, c)
-        ok = len(c.args) == 2 and isinstance(c.args[0], ast.Name) and c.args[0].id == canon and any(g.dominates(e, n) for e in enc)
-        ctx.check(ok, "header/canonical-name-used", cons,
-                  "the framing decision / the stored header uses the raw name instead of the validated canonical name "
-                  "(e.g. 'content-length' would not be recognised)")
-        ok = len(c.args) == 2 and isinstance(c.args[1], ast.Name) and c.args[1].id == valname and any(g.dominates(s, n) for s in strips)
-        ctx.check(ok, "header/stripped-value-used", cons, "the framing decision / the stored header uses the unstripped value")
-        blocked = False
-        for t, lab in g.edge_guards(n):
-            try:
-                val = bool(I.ev(g.node(t).ast, make_env({valname: b"a\x00b"})))
-                val2 = bool(I.ev(g.node(t).ast, make_env({valname: b"ab"})))
-            except Exception:
-                continue
-            if val != (lab == "T") and val2 == (lab == "T"):
-                blocked = True
-        ctx.check(blocked, "header/nul-rejected", cons, "a header value containing NUL reaches the framing decision / the request headers")
-    # every accepted header went through the framing decision
-    tr = [r for r in rets if not is_falsy_return(g.node(r).ast)]
-    ch = calls_named(g, CHOOSE)
-    for r in tr:
-        wit = g.must_precede(ch, [r], exc=False)
-        ctx.check(wit is None, "header/framing-decision-on-every-header", f"{q} | {src(g.node(r).ast)}",
-                  "a header can be accepted without passing _maybeChooseTransferDecoder", witness=g.describe(wit))
-
-
-# ------------------------------------------------------------------------------------------------------
-def _closest_def(g, f, name, at):
-    """Value of the assignment to local ``name`` that dominates node ``at`` and is nearest to it."""
-    defs = [n for n in g.ids(lambda n: n.kind == "stmt" and isinstance(n.ast, ast.Assign)
-                             and any(isinstance(t, ast.Name) and t.id == name for t in assigned_targets(n.ast)))
-            if g.dominates(n, at) and n != at]
-    if not defs:
+def _ref_block(lines, max_headers=500, max_size=16384):
+    """Reference decision for a header block (request line + header lines, no obs-fold), RFC 9112 3/5/6 plus the statement of
+    the property: None = must be answered with 400; else (method, target, version, headers[(lower name, value)], framing)."""
+    rl = _ref_request_line(lines[0])
+    if rl is None:
         return None
-    best = [d for d in defs if all(g.dominates(o, d) for o in defs)]
-    return g.node(best[0]).ast.value if best else None
+    if sum(len(x) for x in lines) > max_size or len(lines) - 1 > max_headers:
+        return None
+    headers = []
+    cl, te = [], []
+    for ln in lines[1:]:
+        name, sep, value = ln.partition(b":")
+        if not sep or not name or any(c not in TCHAR for c in name):
+            return None
+        value = value.strip(b" \t")
+        if b"\x00" in value:
+            return None
+        low = name.lower()
+        headers.append((low, value))
+        if low == b"content-length":
+            if not value or any(c not in b"0123456789" for c in value) or cl or te:
+                return None
+            cl.append(int(value))
+        elif low == b"transfer-encoding":
+            v = value.lower()
+            if v == b"identity":
+                continue
+            if v != b"chunked" or cl or te:
+                return None
+            te.append(v)
+    framing = ("chunked",) if te else (("length", cl[0]) if cl else ("none",))
+    return rl + (headers, framing)
 
 
-def _choose_decoder(ctx, I):
-    f = ctx.func(HTTP, "HTTPChannel._maybeChooseTransferDecoder")
-    g = ctx.cfg(f)
-    q = QC + "_maybeChooseTransferDecoder"
-    hp, dp = f.args.args[1].arg, f.args.args[2].arg
-    fail = calls_named(g, FAIL, RESPOND)
-    ident = calls_named(g, "_IdentityTransferDecoder")
-    chunk = calls_named(g, "_ChunkedTransferDecoder")
-    install = assigns_self(g, "_transferDecoder")
-    setlen = assigns_self(g, "length")
-    trues = g.ids(lambda n: n.kind == "stmt" and isinstance(n.ast, ast.Return) and not is_falsy_return(n.ast) and not call_in(n.ast, FAIL))
-    ctx.need(fail and ident and chunk and install and trues, "fail / decoder constructions / installation / return True in _maybeChooseTransferDecoder")
-    ctx.check(bool(setlen), "framing/length-and-decoder-together", q + " | self.length", "self.length is never set when a body decoder is chosen: the request is completed at the end of the headers and its body is parsed as the next request")
-    _respond_sites(ctx, g, q)
-
-    def run(h, d, dec):
-        return walk(g, I, make_env({hp: h, dp: d, "self._transferDecoder": dec}))
-
-    def hit(vis, nodes):
-        return any(n in vis for n in nodes)
-
-    OBJ = object()
-    cl_values = [b"5", b"0", b"007", b"12345678901234567890", b"", b"+5", b"-5", b" 5", b"5 ", b"0x5", b"5,5", b"5, 5", b"5\x0b", b"\x0c5",
-                 b"1_0", b"\xd9\xa5", b"5.0", b"1e3", b"\xb2", b"5\r", b"5\n", b"a", b"5;q"]
-    for d in cl_values:
-        valid = d != b"" and all(48 <= c <= 57 for c in d)
-        vis = run(b"Content-Length", d, None)
-        if valid:
-            ok = hit(vis, ident) and hit(vis, install) and hit(vis, setlen) and hit(vis, trues) and not hit(vis, fail) and not hit(vis, chunk)
-            why = f"Content-Length: {d!r} (1*DIGIT) does not install the identity decoder"
-        else:
-            ok = hit(vis, fail) and not hit(vis, ident) and not hit(vis, install) and not hit(vis, trues)
-            why = f"Content-Length: {d!r} is not 1*DIGIT but is not rejected with 400 (it reaches int() / a decoder is installed / True is returned)"
-        ctx.check(ok, "framing/content-length-digits", f"{q} | Content-Length: {d!r}", why)
-    te_values = [b"chunked", b"Chunked", b"CHUNKED", b"gzip, chunked", b"chunked, gzip", b"xchunked", b"chunkedx", b" chunked", b"chunked\t",
-                 b"chunked,chunked", b"identity", b"Identity", b"gzip", b"", b"chunked;q=1", b"\x0bchunked", b"identity, chunked", b"deflate"]
-    for d in te_values:
-        vis = run(b"Transfer-Encoding", d, None)
-        low = d.lower()
-        if low == b"chunked":
-            ok = hit(vis, chunk) and hit(vis, install) and hit(vis, setlen) and hit(vis, trues) and not hit(vis, fail) and not hit(vis, ident)
-            why = f"Transfer-Encoding: {d!r} does not install the chunked decoder"
-        elif low == b"identity":
-            ok = hit(vis, trues) and not hit(vis, fail) and not hit(vis, chunk) and not hit(vis, ident) and not hit(vis, install)
-            why = f"Transfer-Encoding: {d!r} must leave the framing unchanged"
-        else:
-            ok = hit(vis, fail) and not hit(vis, chunk) and not hit(vis, install) and not hit(vis, trues)
-            why = f"unsupported transfer coding {d!r} is not rejected with 400 (a decoder is installed or the header is accepted)"
-        ctx.check(ok, "framing/transfer-coding", f"{q} | Transfer-Encoding: {d!r}", why)
-    for h, d in ((b"Content-Length", b"5"), (b"Transfer-Encoding", b"chunked")):
-        vis = run(h, d, OBJ)
-        ok = hit(vis, fail) and not hit(vis, install) and not hit(vis, setlen) and not hit(vis, trues)
-        ctx.check(ok, "framing/conflict-rejected", f"{q} | second framing header {h.decode()}",
-                  f"a request that already has a body decoder (repeated Content-Length, or Content-Length with Transfer-Encoding) is not "
-                  f"rejected when {h.decode()}: {d.decode()} arrives")
-    for h in (b"X", b"Content-Lengthx", b"Content-Type", b"Te", b"Host"):
-        vis = run(h, b"5", None)
-        ok = hit(vis, trues) and not hit(vis, fail) and not hit(vis, install) and not hit(vis, ident) and not hit(vis, chunk)
-        ctx.check(ok, "framing/other-headers-neutral", f"{q} | header {h!r}", f"header {h!r} changes the framing or is rejected")
-
-    # the literals compared with the header name are canonical forms of exactly the two framing headers
-    lits = set()
-    for n in g.ids(lambda n: n.kind == "test"):
-        t = g.node(n).ast
-        if isinstance(t, ast.Compare) and len(t.ops) == 1 and isinstance(t.ops[0], (ast.Eq, ast.NotEq)):
-            for a, b in ((t.left, t.comparators[0]), (t.comparators[0], t.left)):
-                if isinstance(a, ast.Name) and a.id == hp and isinstance(b, ast.Constant) and isinstance(b.value, bytes):
-                    lits.add(b.value)
-    _canonical(ctx, I, lits, q)
-
-    # coupled installation: length and decoder from the same validated value
-    for n in ident:
-        c = call_in(g.node(n).ast, "_IdentityTransferDecoder")
-        a0 = c.args[0] if c.args else None
-        v = a0
-        if isinstance(a0, ast.Name):
-            v = _closest_def(g, f, a0.id, n)
-        ok = isinstance(v, ast.Call) and call_name(v) == "int" and len(v.args) in (1, 2) and isinstance(v.args[0], ast.Name) and v.args[0].id == dp \
-            and (len(v.args) == 1 or is_const(v.args[1], 10))
-        ctx.check(ok, "framing/identity-length-is-content-length", ctx.construct(q, c),
-                  "the identity decoder is not created with int(<Content-Length value>)")
-        for s in setlen:
-            sv = g.node(s).ast.value
-            ok = isinstance(a0, ast.Name) and isinstance(sv, ast.Name) and sv.id == a0.id
-            ctx.check(ok, "framing/length-matches-decoder", ctx.construct(q, g.node(s).ast),
-                      "self.length is not set from the same value the identity decoder counts with")
-    for n in chunk:
-        for s in setlen:
-            sv = g.node(s).ast.value
-            v = _closest_def(g, f, sv.id, n) if isinstance(sv, ast.Name) else sv
-            ctx.check(isinstance(v, ast.Constant) and v.value is None, "framing/chunked-length-none", ctx.construct(q, g.node(n).ast),
-                      "for chunked coding self.length is not None: lineReceived would treat the request as having a fixed/empty body")
-    for n in ident + chunk:
-        c = call_in(g.node(n).ast, "_IdentityTransferDecoder", "_ChunkedTransferDecoder")
-        args = list(c.args) + [k.value for k in c.keywords]
-        ok = len(args) >= 2 and src(args[-1]) == "self._finishRequestBody" and src(args[-2]).endswith(".handleContentChunk") and \
-            src(args[-2]).startswith("self.requests[-1]")
-        ctx.check(ok, "framing/decoder-callbacks", ctx.construct(q, c),
-                  "body bytes do not go to the current request's handleContentChunk / the bytes after the body are not given back through _finishRequestBody")
-    for i in install:
-        w1 = ordered(g, setlen, [i])
-        w2 = g.must_pass([i], setlen, exc=False)
-        ctx.check(w1 is None or w2 is None, "framing/length-and-decoder-together", ctx.construct(q, g.node(i).ast),
-                  "a decoder is installed on a path that does not set self.length (the request would be completed before its body)",
-                  witness=g.describe(w2))
-        v = g.node(i).ast.value
-        src_ok = isinstance(v, ast.Name) and all(isinstance(x, ast.Call) and call_name(x) in ("_IdentityTransferDecoder", "_ChunkedTransferDecoder")
-                                                for x in local_values(f, v.id))
-        ctx.check(src_ok, "framing/installed-decoder-is-chosen", ctx.construct(q, g.node(i).ast), "the installed decoder is not the one chosen from the header")
-
-    # _failChooseTransferDecoder
-    ff = ctx.func(HTTP, "HTTPChannel._failChooseTransferDecoder")
-    gf = ctx.cfg(ff)
-    qf = QC + "_failChooseTransferDecoder"
-    rs = calls_named(gf, RESPOND)
-    wit = gf.must_pass([gf.entry], rs, exc=False)
-    ctx.check(bool(rs) and wit is None, "reject/fail-sends-400", qf, "_failChooseTransferDecoder can return without answering 400", witness=gf.describe(wit))
-    for r in gf.ids(lambda n: n.kind == "stmt" and isinstance(n.ast, ast.Return)):
-        ctx.check(is_falsy_return(gf.node(r).ast) and gf.node(r).ast.value is not None, "reject/fail-returns-false", ctx.construct(qf, gf.node(r).ast),
-                  "_failChooseTransferDecoder reports success: the header with invalid framing is accepted")
-    _respond_sites(ctx, gf, qf, extra_ok=lambda nd: nd.kind == "stmt" and isinstance(nd.ast, ast.Assign) and isinstance(nd.ast.value, ast.Constant))
+def _chunked(parts, trailer=b""):
+    return b"".join(b"%x;e=1\r\n" % len(p) + p + b"\r\n" for p in parts) + b"0\r\n" + trailer + b"\r\n"
 
 
-def _header_case(x: bytes) -> bytes:
-    """Http-Header-Case, written out: every '-'-separated word capitalised."""
-    return b"-".join(w[:1].upper() + w[1:].lower() for w in x.split(b"-"))
+def _blocks(tier):
+    """(family, lines) - grammar-based header blocks around the framing headers."""
+    out = []
+    rl = b"POST /x?q=1 HTTP/1.1"
+    host = [b"Host: a"]
+    for v in (b"3", b"0", b"007", b"10", b"12", b"", b"+3", b"-3", b"0x3", b"3,3", b"3, 3", b"3\x0b", b"\x0c3", b"1_0", b"\xd9\xa5", b"3.0", b"1e1", b"\xb2", b"3\r", b"3\n", b"a", b"3;q", b"3 3"):
+        out.append(("content-length-value", [rl] + host + [b"Content-Length: " + v]))
+    for v in (b"chunked", b"Chunked", b"CHUNKED", b"gzip, chunked", b"chunked, gzip", b"xchunked", b"chunkedx", b"chunked;q=1", b"\x0bchunked", b"chunked\n", b"identity", b"Identity",
+              b"gzip", b"", b"identity, chunked", b"deflate", b"chunked,chunked"):
+        out.append(("transfer-coding", [rl] + host + [b"Transfer-Encoding: " + v]))
+    cl3, cl4, te = b"Content-Length: 3", b"Content-Length: 4", b"Transfer-Encoding: chunked"
+    for combo in ([cl3, cl3], [cl3, cl4], [cl3, te], [te, cl3], [te, te], [b"Transfer-Encoding: identity", cl3], [cl3, b"Transfer-Encoding: identity"], [te, b"Transfer-Encoding: identity"],
+                  [b"Transfer-Encoding: gzip", te], [cl3, b"X-A: 1", cl3], [cl3, b"X-A: 1", te]):
+        for pos in ("first", "middle", "last"):
+            others = [b"X-B: 2", b"Accept: */*"]
+            lines = {"first": combo + others, "middle": others[:1] + combo + others[1:], "last": others + combo}[pos]
+            out.append(("conflicting-framing", [rl] + host + lines))
+    for name in (b"content-length", b"CONTENT-LENGTH", b"Content-length", b"cOnTeNt-LeNgTh"):
+        out.append(("header-name-case", [rl] + host + [name + b": 3"]))
+    for name in (b"transfer-encoding", b"TRANSFER-ENCODING", b"Transfer-encoding"):
+        out.append(("header-name-case", [rl] + host + [name + b": chunked"]))
+    for ln in (b"Content-Length:3", b"Content-Length:   3  ", b"Content-Length:\t3\t", b"Transfer-Encoding:chunked", b"Transfer-Encoding: \t chunked \t"):
+        out.append(("optional-whitespace", [rl] + host + [ln]))
+    bad_lines = [b"NoColonHere", b"Bad Name: 1", b": empty-name", b"X: a\x00b", b"X\x00: 1", b"X-Foo\n: v", b"X-Foo\r: v", b"Content-Length : 3", b"Content-Length\t: 3",
+                 b"X(y): 1", b"\x80: 1", b"Transfer-Encoding : chunked", b"X-Foo\n\n: v"]
+    for ln in bad_lines:
+        for pos in ("first", "middle", "last"):
+            others = [b"X-B: 2", b"Accept: */*"]
+            lines = {"first": [ln] + others, "middle": others[:1] + [ln] + others[1:], "last": others + [ln]}[pos]
+            out.append(("invalid-header-line", [rl] + host + lines + ([] if pos == "last" else [])))
+    for r in (b"GET /x HTTP/1.1", b"GET  /x HTTP/1.1", b"GET /x HTTP/1.2", b"G@T /x HTTP/1.1", b"GET /\x7f HTTP/1.1", b"GET /\xb0 HTTP/1.1", b"GET /x", b"GET /x HTTP/1.1 ", b"GET\n /x HTTP/1.1",
+              b"GET /x HTTP/1.0", b"OPTIONS * HTTP/1.1", b"GET /x\tHTTP/1.1", b"/x HTTP/1.1"):
+        out.append(("request-line", [r] + host))
+    out.append(("no-framing-headers", [rl] + host + [b"X-A: 1", b"X-A: 2", b"Accept: a:b:c", b"X-Empty:"]))
+    if tier != "quick":
+        out.append(("limits", [rl] + host + [b"X-%d: v" % i for i in range(499)]))
+        out.append(("limits", [rl] + host + [b"X-%d: v" % i for i in range(500)]))
+    out.append(("limits", [rl] + host + [b"X-Big: " + b"v" * 16300]))
+    out.append(("limits", [rl] + host + [b"X-Big: " + b"v" * 9000, b"X-Big2: " + b"v" * 9000]))
+    for body in (b"g\r\nabc\r\n0\r\n\r\n", b"3\r\nabcXX0\r\n\r\n", b"3;\x00\r\nabc\r\n0\r\n\r\n", b"+3\r\nabc\r\n0\r\n\r\n", b"3\n\r\nabc\r\n0\r\n\r\n", b"\xe9\r\nabc\r\n0\r\n\r\n"):
+        out.append(("malformed-chunked-body", [rl] + host + [te, b"X-Body: " + body.hex().encode()]))
+    if tier == "quick":
+        seen = {}
+        red = []
+        for fam, lines in out:
+            i = seen[fam] = seen.get(fam, 0) + 1
+            # positions come in triples (first, middle, last): keep one per triple, rotating, and every 'last' of the first two triples
+            if fam in ("conflicting-framing", "invalid-header-line") and not ((i - 1) % 3 == ((i - 1) // 3) % 3 or ((i - 1) % 3 == 2 and i <= 6)):
+                continue
+            red.append((fam, lines))
+        out = red
+    return out
 
 
-def _canonical(ctx, I, lits, q):
-    """The literals the framing decision compares the (canonicalised) header name with are the canonical spellings of
-    exactly Content-Length and Transfer-Encoding; where the canonicalisation expression of _NameEncoder can be located
-    (in encode() or a helper) it must agree with Http-Header-Case on them."""
-    cls = ctx.cls(HDRS, "_NameEncoder")
-    want = {b"content-length", b"transfer-encoding"}
-    ctx.check({l.lower() for l in lits} == want, "framing/headers-recognised", q,
-              f"the framing headers recognised are {sorted(lits)}; RFC 9112 6 requires exactly Content-Length and Transfer-Encoding")
-    cm = class_assigns(cls).get("_caseMappings")
-    try:
-        mapping = I.ev(cm, {}) if cm is not None else {}
-    except Exception:
-        mapping = {}
-    for l in sorted(lits):
-        c = _header_case(l)
-        c = mapping.get(c, c)
-        ctx.check(c == l, "framing/canonical-literal", f"{q} | {l!r}",
-                  f"header name literal {l!r} is not the canonical Http-Header-Case spelling ({c!r}) that reaches _maybeChooseTransferDecoder: the framing header would be ignored")
-    with ctx.section("canonicalisation expression of _NameEncoder"):
-        found = []
-        for m in [n for n in cls.body if isinstance(n, (ast.FunctionDef, ast.AsyncFunctionDef))]:
-            for st in statements(m):
-                v = st.value if isinstance(st, (ast.Assign, ast.Return)) else None
-                if v is not None and any(isinstance(c, ast.Call) and call_attr(c) in ("capitalize", "title") for c in ast.walk(v)):
-                    bound = {t.id for comp in ast.walk(v) if isinstance(comp, ast.comprehension) for t in ast.walk(comp.target) if isinstance(t, ast.Name)}
-                    free = sorted({n.id for n in ast.walk(v) if isinstance(n, ast.Name) and isinstance(n.ctx, ast.Load)} - bound - set(I.consts) - set(I.funcs))
-                    if len(free) == 1:
-                        found.append((m, v, free[0]))
-        ctx.need(found, "canonicalisation expression (capitalised words) in _NameEncoder")
-        for m, expr, var in found:
-            bad = None
-            for l in sorted(want) + [b"CONTENT-LENGTH", b"Transfer-encoding", b"x-a-b"]:
-                try:
-                    got = I.ev(expr, {var: l})
-                except Exception as e:
-                    raise AnalysisError(f"canonicalisation expression not evaluable: {src(expr)[:80]} ({e})")
-                if got != _header_case(l) and bad is None:
-                    bad = (l, got)
-            ctx.check(bad is None, "framing/canonicalisation", ctx.construct("twisted.web.http_headers._NameEncoder." + m.name, expr),
-                      f"the canonical form of {bad[0]!r} is {bad[1]!r}, not Http-Header-Case: the framing literals no longer match received names" if bad else "")
+def _body_for(framing):
+    if framing[0] == "length":
+        return (b"abcdefgh" * 2)[: framing[1]], (b"abcdefgh" * 2)[: framing[1]]
+    if framing[0] == "chunked":
+        return _chunked([b"he\r\n", b"llo"], b"X-T: 1\r\n"), b"he\r\nllo"
+    return b"", b""
 
 
-def _respond(ctx):
-    f = ctx.func(HTTP, "HTTPChannel._respondToBadRequestAndDisconnect")
-    g = ctx.cfg(f)
-    q = QC + "_respondToBadRequestAndDisconnect"
-    ws = calls_named(g, "self.transport.write", "self.transport.writeSequence")
-    ctx.need(ws, "transport.write in _respondToBadRequestAndDisconnect")
-    for n in ws:
-        c = call_in(g.node(n).ast, "self.transport.write", "self.transport.writeSequence")
-        a = c.args[0] if c.args else None
-        v = a.value if isinstance(a, ast.Constant) and isinstance(a.value, bytes) else None
-        ok = v is not None and v.startswith(b"HTTP/1.1 400 ") and v.endswith(b"\r\n\r\n") and v.count(b"\r\n") == 2
-        ctx.check(ok, "reject/400-status-line", ctx.construct(q, c), "the bad-request response is not exactly a 400 status line followed by an empty line")
-    lose = calls_named(g, "self.loseConnection", "self.transport.loseConnection", "self.transport.abortConnection")
-    wit = g.must_pass([g.entry], lose, exc=False)
-    ctx.check(bool(lose) and wit is None, "reject/400-then-close", q, "the 400 is sent but the connection is not closed: following bytes are still parsed",
-              witness=g.describe(wit))
-    wit = ordered(g, ws, lose)
-    ctx.check(wit is None, "reject/400-before-close", q, "the connection is closed before the 400 is written", witness=g.describe(wit))
-    f2 = ctx.func(HTTP, "HTTPChannel.loseConnection")
-    g2 = ctx.cfg(f2)
-    tl = calls_named(g2, "self.transport.loseConnection", "self.transport.abortConnection")
-    wit = g2.must_pass([g2.entry], tl, exc=False)
-    ctx.check(bool(tl) and wit is None, "reject/channel-close-reaches-transport", QC + "loseConnection",
-              "HTTPChannel.loseConnection can return without closing the transport", witness=g2.describe(wit))
+def _same_request(info, want, body):
+    if info is None:
+        return False
+    m, t, v, headers, framing = want
+    hs = info["headers"] or {}
+    got = sorted((k.lower(), x) for k, vs in hs.items() for x in vs)
+    return info["method"] == m and info["uri"] == t and info["version"] == v and (info["body"] or b"") == body and got == sorted(headers)
 
 
-def _raw_data(ctx, I):
-    f = ctx.func(HTTP, "HTTPChannel.rawDataReceived")
-    g = ctx.cfg(f)
-    q = QC + "rawDataReceived"
-    sites = _respond_sites(ctx, g, q)
-    dn = calls_named(g, "self._transferDecoder.dataReceived")
-    ctx.need(dn, "self._transferDecoder.dataReceived call in rawDataReceived")
-    p = f.args.args[1].arg
-    for n in dn:
-        c = call_in(g.node(n).ast, "self._transferDecoder.dataReceived")
-        hs = [h for h in handlers_of(g, n) if catches(I, g.node(h).ast, "_MalformedChunkedDataError")]
-        wit = None
-        for h in hs:
-            wit = wit or g.must_pass([h], sites, exc=False)
-        ctx.check(bool(hs) and wit is None, "reject/malformed-chunk-gives-400", ctx.construct(q, c),
-                  "malformed chunked data (_MalformedChunkedDataError) is not answered with 400 and a close",
-                  witness=g.describe(wit) if wit else "no handler catches _MalformedChunkedDataError")
-        ctx.check(len(c.args) == 1 and src(c.args[0]) == p, "framing/body-bytes-to-decoder", ctx.construct(q, c), "the decoder does not receive the delivered bytes")
-    # the bytes after the body are buffered before the request is handed over
-    f2 = ctx.func(HTTP, "HTTPChannel._finishRequestBody")
-    g2 = ctx.cfg(f2)
-    q2 = QC + "_finishRequestBody"
-    p2 = f2.args.args[1].arg
-    app = [n for n in calls_named(g2, "self._dataBuffer.append", "self._dataBuffer.extend")
-           if src(call_in(g2.node(n).ast, "self._dataBuffer.append", "self._dataBuffer.extend").args[0]) in (p2, f"[{p2}]", f"({p2},)")]
-    acr = calls_named(g2, "self.allContentReceived")
-    wit = ordered(g2, app, acr)
-    ctx.check(bool(app) and bool(acr) and wit is None, "framing/leftover-buffered-before-hand-over", q2,
-              "the bytes following the body are not stored in _dataBuffer before allContentReceived(): they are lost or replayed out of order",
-              witness=g2.describe(wit))
-    wit = g2.must_pass([g2.entry], acr, exc=False)
-    ctx.check(wit is None, "framing/body-end-completes-request", q2, "the end of the body does not complete the request", witness=g2.describe(wit))
+def _framing(ctx, H):
+    q = QC + "dataReceived"
+    tier = ctx.tier
+    fams = {}
+    for fam, lines in _blocks(tier):
+        fams.setdefault(fam, []).append(lines)
+
+    def answer_now(mm, req):
+        H.call(req, "write", b"ok")
+        H.call(req, "finish")
+
+    for fam, blocks in fams.items():
+        bad = None
+        n = 0
+        for lines in blocks:
+            want = _ref_block(lines)
+            block = b"\r\n".join(lines) + b"\r\n\r\n"
+            if fam == "malformed-chunked-body":
+                want, (wire_body, body) = None, (bytes.fromhex(lines[-1].split(b": ")[1].decode()), b"")
+            elif want:
+                wire_body, body = _body_for(want[4])
+            else:
+                lowered = block.lower()
+                wire_body, body = (_chunked([b"abc"]), b"") if b"chunked" in lowered else ((b"abc", b"") if b"content-length" in lowered else (b"", b""))
+            stream = block + wire_body + NEXT
+            cut = len(block) + len(wire_body) // 2
+            deliveries = [("whole", [stream])]
+            if fam != "limits" and (tier != "quick" or wire_body):
+                deliveries.append(("split after body", [stream[:len(block) + len(wire_body)], stream[len(block) + len(wire_body):]]))
+            if fam != "limits" and (tier != "quick" or (wire_body and n % 3 == 0)):
+                deliveries.append(("split in body", [stream[:cut], stream[cut:]]))
+            if fam != "limits" and (tier != "quick" or n % 7 == 0):
+                deliveries.append(("split in headers", [stream[:len(block) // 2], stream[len(block) // 2:]]))
+                deliveries.append(("line by line", [x + b"\r\n" for x in block[:-2].split(b"\r\n")] + [wire_body + NEXT]))
+            n += 1
+            for how, pieces in deliveries:
+                def scen(H, pieces=pieces):
+                    ch = H.channel(process=answer_now)
+                    esc = None
+                    counts = []
+                    for p in pieces:
+                        if H.transport.attrs["disconnecting"]:
+                            break              # a transport that stops delivering once closed
+                        try:
+                            H.feed(ch, p)
+                        except PyRaise as e:
+                            esc = exc_name(e.exc)
+                            break
+                        counts.append(len(H.seen))
+                    return list(H.seen), H.wire(), H.transport.attrs["disconnecting"], esc, counts
+                o = H.run(scen)
+                if o.kind != "ok":
+                    bad = (lines, how, f"{o.kind} {o.exc_name}")
+                    break
+                seen, wire, closed, esc, counts = o.value
+                if want is None:
+                    ok = seen == [] and wire == BAD_REQUEST and closed and esc is None
+                    exp = "400 Bad Request, connection closed, nothing handed to the application"
+                elif want[2] == b"HTTP/1.0":
+                    ok = len(seen) == 1 and _same_request(seen[0], want, body) and closed and esc is None and b" 400 " not in wire[:16]
+                    exp = f"request {want[0]!r} {want[1]!r} with body {body!r}, then the (non-persistent) connection closed"
+                else:
+                    ok = len(seen) == 2 and _same_request(seen[0], want, body) and (seen[1]["method"], seen[1]["uri"], seen[1]["body"]) == (b"POST", b"/next", b"hi") \
+                        and not wire.startswith(b"HTTP/1.1 400") and esc is None and not closed and (how != "split after body" or counts[:1] == [1])
+                    exp = f"request {want[0]!r} {want[1]!r} with body {body!r} and framing {want[4]}, then the pipelined POST /next (body b'hi') as a separate request, the first one handed over as soon as its last body byte arrived (handed-over counts per delivery {counts})"
+                if not ok:
+                    got = [(i["method"], i["uri"], i["body"], sorted((i["headers"] or {}).items())[:4]) for i in seen]
+                    bad = (lines, how, f"handed over {got!r}, wire starts {wire[:40]!r}, closed={closed}, escaped exception {esc}; expected {exp}")
+                    break
+            if bad:
+                break
+        ctx.check(bad is None, "framing/" + fam, f"{q} | {fam}",
+                  (f"header block {[bytes(x)[:40] for x in bad[0]][:6]!r} delivered {bad[1]}: {bad[2]}") if bad else "",
+                  detail=f"{len(blocks)} header blocks x deliveries agree with the RFC 9112 reference decision (400 + close + nothing processed, or the exact body and the next request intact)")
 
 
-def _identity_decoder(ctx):
-    f = ctx.func(HTTP, "_IdentityTransferDecoder.dataReceived")
-    g = ctx.cfg(f)
-    q = Q + "_IdentityTransferDecoder.dataReceived"
-    p = f.args.args[1].arg
-    fin = [n for n in g.ids(lambda n: n.kind == "stmt") if any(isinstance(c, ast.Call) and (call_name(c) or "").endswith("finishCallback") for c in walk_local(g.node(n).ast))]
-    ctx.need(fin, "finishCallback call in _IdentityTransferDecoder.dataReceived")
-    want = (frozenset({(f"len({p})", 1), ("self.contentLength", -1)}), 0)
-    for n in fin:
-        c = next(c for c in walk_local(g.node(n).ast) if isinstance(c, ast.Call) and (call_name(c) or "").endswith("finishCallback"))
-        # boundary: finish iff len(data) >= contentLength
-        forms = [lincmp(g.node(t).ast, {}, negate=(lab == "F")) for t, lab in g.edge_guards(n)]
-        ctx.check(want in forms, "body/identity-boundary", ctx.construct(q, c),
-                  "the body is not finished exactly when len(data) >= remaining contentLength (a request whose last bytes arrive is not completed, "
-                  "or is completed early)", detail="guard normal form len(data) - contentLength >= 0")
-        a = c.args[0] if c.args else None
-        bound = a.slice.lower if isinstance(a, ast.Subscript) and isinstance(a.slice, ast.Slice) and a.slice.upper is None and a.slice.step is None else None
-        ok = bound is not None and src(a.value) == p
-        bvals = [src(v) for v in resolve_local(f, bound)] if bound is not None else []
-        ok = ok and bvals == ["self.contentLength"]
-        if ok and isinstance(bound, ast.Name):
-            defs = [d for d in g.ids(lambda m: m.kind == "stmt" and isinstance(m.ast, ast.Assign) and any(isinstance(t, ast.Name) and t.id == bound.id for t in m.ast.targets))]
-            resets = [r for r in assigns_self(g, "contentLength") if g.dominates(r, n)]
-            ok = all(ordered(g, defs, [r]) is None for r in resets)
-        ctx.check(ok, "body/leftover-split", ctx.construct(q, c),
-                  "finishCallback does not receive exactly data[contentLength:] (bytes of the next request are lost or body bytes are re-parsed as a request)")
-        dcs = [m for m in g.ids(lambda m: m.kind == "stmt") if g.dominates(m, n) and any(
-            isinstance(x, ast.Call) and (call_name(x) or "").endswith("dataCallback") for x in walk_local(g.node(m).ast))]
-        okd = False
-        for m in dcs:
-            x = next(x for x in walk_local(g.node(m).ast) if isinstance(x, ast.Call) and (call_name(x) or "").endswith("dataCallback"))
-            b = x.args[0] if x.args else None
-            if isinstance(b, ast.Subscript) and isinstance(b.slice, ast.Slice) and b.slice.lower is None and b.slice.upper is not None and bound is not None \
-                    and src(b.slice.upper) == src(bound) and src(b.value) == p:
-                okd = True
-        ctx.check(okd, "body/body-split", ctx.construct(q, c), "the last body piece is not exactly data[:contentLength]")
-        clr = [r for r in g.ids(lambda m: m.kind == "stmt" and isinstance(m.ast, ast.Assign) and any(self_attr(t, "finishCallback") or self_attr(t, "dataCallback") for t in m.ast.targets)
-                                and isinstance(m.ast.value, ast.Constant) and m.ast.value.value is None)]
-        wit = ordered(g, clr, [n])
-        ctx.check(bool(clr) and wit is None, "body/finish-once", ctx.construct(q, c),
-                  "the decoder is not marked finished before finishCallback is called (a re-entrant delivery would finish the body twice)", witness=g.describe(wit))
-    # partial delivery: counter decreases by exactly len(data)
-    augs = g.ids(lambda n: n.kind == "stmt" and isinstance(n.ast, ast.AugAssign) and self_attr(n.ast.target, "contentLength"))
-    ctx.check(bool(augs), "body/identity-count", q, "the remaining length is no longer decreased on a partial delivery")
-    for n in augs:
-        st = g.node(n).ast
-        ctx.check(isinstance(st.op, ast.Sub) and src(st.value) == f"len({p})", "body/identity-count", ctx.construct(q, st),
-                  "the remaining body length is not decreased by exactly len(data)")
-    g0 = [t for t in g.ids(lambda n: n.kind == "test") if src(g.node(t).ast) == "self.dataCallback is None"]
-    ctx.check(bool(g0), "body/finish-once", q + " | late delivery", "data delivered after the body finished is not refused")
+def _after_400(ctx, H):
+    """'...answered with 400 and nothing after it is processed' on a transport that keeps delivering after loseConnection
+    (TLS until close_notify, in-memory transports): every following byte is delivered, line by line."""
+    q = QC + "dataReceived | 400, transport keeps delivering"
+    rl = b"POST /x HTTP/1.1"
+    tail = [b"X-Later: 1", b"", b"0\r\n\r\nabc", b"GET /next HTTP/1.1", b"Host: y", b"", b""]
+    conflict = [rl, b"Host: a", b"Content-Length: 5", b"Transfer-Encoding: chunked"]
+    cases = {
+        "the last header line is rejected, then the empty line and body bytes": [conflict, [rl, b"Host: a", b"Bad Name: 1"], [rl, b"NoColon"], [rl, b"Content-Length: +5"],
+                                                                                 [rl, b"Content-Length: 5", b"Content-Length: 5"], [rl, b"X: a\x00b"]],
+        "a header line is rejected": [conflict + [b"X: y"], [rl, b"Host: a", b"Bad Name: 1", b"X: y"], [rl, b"Content-Length: 3", b"Content-Length: 3", b"X: y"], [rl, b"NoColon", b"X: y"]],
+        "the request line is rejected": [[b"GET /\x7f HTTP/1.1", b"Host: a"], [b"GET / HTTP/9.9", b"Host: a"]],
+        "the header block is too large": [[rl] + [b"X-Big: " + b"v" * 9000] * 2],
+    }
+    for label, blocks in cases.items():
+        bad = None
+        for lines in blocks:
+            if label.startswith("the last header line"):
+                pieces = [x + b"\r\n" for x in lines] + [b"\r\n", b"abcde", b"fgh"]
+            else:
+                follow = [b""] + tail
+                pieces = [x + b"\r\n" for x in lines] + [x + b"\r\n" if not x.endswith(b"abc") else x for x in follow]
+
+            def scen(H, pieces=pieces):
+                ch = H.channel(process=lambda mm, req: (H.call(req, "write", b"ok"), H.call(req, "finish")))
+                escaped = []
+                for p in pieces:
+                    try:
+                        H.feed(ch, p)
+                    except PyRaise as e:
+                        escaped.append(exc_name(e.exc))
+                        break            # an exception escaping dataReceived makes the transport drop the connection
+                return list(H.seen), H.wire(strict=False), H.transport.attrs["disconnecting"], escaped
+            for o in H.run(scen, single=False, max_paths=64):
+                if o.kind != "ok":
+                    bad = (lines, f"{o.kind} {o.exc_name}")
+                    break
+                seen, wire, closed, escaped = o.value
+                if not (seen == [] and wire.startswith(BAD_REQUEST) and closed and b"200" not in wire):
+                    bad = (lines, f"handed over {[(i['method'], i['uri'], i['body']) for i in seen]!r}, wire {wire[:80]!r}")
+                    break
+            if bad:
+                break
+        ctx.check(bad is None, "reject/nothing-processed-after-400", f"{Q}HTTPChannel | {label}, transport keeps delivering after loseConnection",
+                  (f"header block {[bytes(x)[:40] for x in bad[0]]!r} is answered with 400, but with the following bytes still delivered: {bad[1]} - the rejected request reaches the "
+                   "application / is answered (the result of the header validation is not honoured for the rest of the header block)") if bad else "")
 
 
 def _reject_paths(ctx):
-    """Exception escape on the reject paths: handler bodies and the rejecting helpers contain no operation that can
-    raise on untrusted bytes before / instead of the 400."""
+    """Exception escape on the reject paths: handler bodies of the channel contain no operation that can raise on untrusted
+    bytes before / instead of the 400."""
+    cls = ctx.cls(HTTP, "HTTPChannel")
     n = 0
-    for name in ("lineReceived", "headerReceived", "rawDataReceived", "_maybeChooseTransferDecoder", "_failChooseTransferDecoder", "_respondToBadRequestAndDisconnect"):
-        f = ctx.func(HTTP, "HTTPChannel." + name)
-        regions = [st for h in ast.walk(f) if isinstance(h, ast.ExceptHandler) for st in h.body]
-        if name in ("_failChooseTransferDecoder", "_respondToBadRequestAndDisconnect"):
-            regions += list(f.body)
-        for st in regions:
-            n += 1
-            bad = risky_calls(st)
-            ctx.check(not bad, "reject/reject-path-cannot-raise", ctx.construct(QC + name, st),
-                      (f"on the reject path {src(bad[0])} can raise for untrusted bytes: the exception escapes dataReceived instead of the 400 being sent") if bad else "")
-    ctx.floor("reject/reject-path-cannot-raise", n, 6)
-
-
-def _content_reset(ctx):
-    f = ctx.func(HTTP, "HTTPChannel.allContentReceived")
-    g = ctx.cfg(f)
-    q = QC + "allContentReceived"
-    out = calls_named(g, ".requestReceived")
-    ctx.need(out, "req.requestReceived(...) call-out in allContentReceived")
-    for attr, pred, what in (("length", lambda v: is_const(v, 0), "0"), ("_transferDecoder", lambda v: isinstance(v, ast.Constant) and v.value is None, "None"),
-                             ("__first_line", lambda v: is_const(v, 1), "1"), ("_receivedHeaderCount", lambda v: is_const(v, 0), "0"),
-                             ("_receivedHeaderSize", lambda v: is_const(v, 0), "0")):
-        rs = assigns_self(g, attr, pred)
-        wit = ordered(g, rs, out)
-        ctx.check(bool(rs) and wit is None, "framing/state-reset-before-hand-over", f"{q} | self.{attr} = {what}",
-                  f"self.{attr} is not reset to {what} before the application is called: a response finished synchronously replays the next "
-                  "pipelined request against the previous request's framing state", witness=g.describe(wit))
-    c = call_in(g.node(out[0]).ast, ".requestReceived")
-    vals = [src(v) for a in c.args for v in resolve_local(f, a)]
-    ctx.check(vals == ["self._command", "self._path", "self._version"], "request-line/fields-delivered", ctx.construct(q, c),
-              "requestReceived is not called with the validated (method, target, version)")
+    for f in [x for x in cls.body if isinstance(x, (ast.FunctionDef, ast.AsyncFunctionDef))]:
+        for h in [x for x in ast.walk(f) if isinstance(x, ast.ExceptHandler)]:
+            for st in h.body:
+                n += 1
+                bad = risky_calls(st)
+                ctx.check(not bad, "reject/reject-path-cannot-raise", ctx.construct(QC + f.name, st),
+                          (f"in an exception handler {src(bad[0])} can raise for untrusted bytes: the exception escapes dataReceived instead of the 400 being sent") if bad else "")
+    ctx.floor("reject/reject-path-cannot-raise", n, 3)
 
 
 def check(ctx):
     I = http_interp(ctx)
-    for name, fn in (("byte classes", lambda: _byte_classes(ctx, I)), ("request line", lambda: _request_line(ctx, I)),
-                     ("header name encoder", lambda: check_name_encoder(ctx, I)), ("validator results", lambda: _result_used(ctx, I)),
-                     ("lineReceived", lambda: _line_received(ctx, I)), ("headerReceived", lambda: _header_received(ctx, I)),
-                     ("framing decision", lambda: _choose_decoder(ctx, I)), ("400 response", lambda: _respond(ctx)),
-                     ("raw data", lambda: _raw_data(ctx, I)), ("identity decoder", lambda: _identity_decoder(ctx)),
-                     ("state reset", lambda: _content_reset(ctx)), ("reject paths", lambda: _reject_paths(ctx))):
-        with ctx.section(name):
-            fn()
+    with ctx.section("byte classes"):
+        _byte_classes(ctx, I)
+    with ctx.section("request line"):
+        _request_line(ctx, I)
+    H = Harness(ctx)
+    with ctx.section("header name encoder"):
+        check_name_encoder_behaviour(ctx, H)
+    with ctx.section("framing"):
+        _framing(ctx, H)
+    with ctx.section("after a 400"):
+        _after_400(ctx, H)
+    with ctx.section("reject paths"):
+        _reject_paths(ctx)
 
 
 MUTANTS = [
-    Mutant('token-regex-dollar-accepts-trailing-newline', ABNF, '    for c in b:\n        if c not in (\n            b"ABCDEFGHIJKLMNOPQRSTUVWXYZabcdefghijklmnopqrstuvwxyz"  # ALPHA\n            b"0123456789"  # DIGIT\n            b"!#$%&\'*+-.^_`|~"\n        ):\n            return False\n    return b != b""\n', '    return _TOKEN_RE.match(b) is not None\n', more=[(ABNF, '"""\n\n\ndef _istoken', '"""\n\nimport re\n\n_TOKEN_RE = re.compile(rb"[A-Za-z0-9!#$%&\'*+\\-.^_`|~]+$")\n\n\ndef _istoken')], expect_rule='byte-class/exact'),
-    Mutant('hexdigits-regex-dollar-accepts-trailing-newline', ABNF, '    for c in b:\n        if c not in b"0123456789abcdefABCDEF":\n            return False\n    return b != b""\n', '    return _HEX_RE.match(b) is not None\n', more=[(ABNF, '"""\n\n\ndef _istoken', '"""\n\nimport re\n\n_HEX_RE = re.compile(rb"[0-9a-fA-F]+$")\n\n\ndef _istoken')], expect_rule='byte-class/hex'),
-    Mutant('name-cached-by-helper-before-validation', HDRS, '        if not _istoken(bytes_name):\n            raise InvalidHeaderName(bytes_name)\n\n        result = b"-".join([word.capitalize() for word in bytes_name.split(b"-")])\n', '        result = self._remember(name, bytes_name)\n        if not _istoken(result):\n            raise InvalidHeaderName(bytes_name)\n        return result\n\n    def _remember(self, name, bytes_name):\n        result = b"-".join([word.capitalize() for word in bytes_name.split(b"-")])\n', expect_rule='header-name/cache-after-validation'),
-    Mutant("F19a-revert-target-upper-bound-176", HTTP, "if c <= 32 or c > 126:", "if c <= 32 or c > 176:", expect_rule="request-line/target-byte"),
-    Mutant("empty-target-accepted", HTTP, "    if request == b\"\":\n        raise ValueError(\"Empty request-target\")\n", "", expect_rule="request-line/"),
-    Mutant("version-prefix-only", HTTP, "if version != b\"HTTP/1.1\" and version != b\"HTTP/1.0\":", "if not version.startswith(b\"HTTP/1.\"):",
-           expect_rule="request-line/version"),
-    Mutant("split-any-whitespace", HTTP, "method, request, version = line.split(b\" \")", "method, request, version = line.split()", expect_rule="request-line/structure"),
-    Mutant("token-allows-colon", ABNF, "b\"!#$%&'*+-.^_`|~\"\n", "b\"!#$%&'*+-.^_`|~:\"\n", expect_rule="byte-class/exact"),
-    Mutant("hexdigits-allow-empty", ABNF, "            return False\n    return b != b\"\"\n\n\ndef _hexint", "            return False\n    return True\n\n\ndef _hexint",
-           expect_rule="byte-class/"),
+    Mutant('token-regex-dollar-accepts-trailing-newline', ABNF, '    for c in b:\n        if c not in (\n            b"ABCDEFGHIJKLMNOPQRSTUVWXYZabcdefghijklmnopqrstuvwxyz"  # ALPHA\n            b"0123456789"  # DIGIT\n            b"!#$%&\'*+-.^_`|~"\n        ):\n            return False\n    return b != b""\n', '    return _TOKEN_RE.match(b) is not None\n', more=[(ABNF, '"""\n\n\ndef _istoken', '"""\n\nimport re\n\n_TOKEN_RE = re.compile(rb"[A-Za-z0-9!#$%&\'*+\\-.^_`|~]+$")\n\n\ndef _istoken')]),
+    Mutant('hexdigits-regex-dollar-accepts-trailing-newline', ABNF, '    for c in b:\n        if c not in b"0123456789abcdefABCDEF":\n            return False\n    return b != b""\n', '    return _HEX_RE.match(b) is not None\n', more=[(ABNF, '"""\n\n\ndef _istoken', '"""\n\nimport re\n\n_HEX_RE = re.compile(rb"[0-9a-fA-F]+$")\n\n\ndef _istoken')]),
+    Mutant('name-cached-by-helper-before-validation', HDRS, '        if not _istoken(bytes_name):\n            raise InvalidHeaderName(bytes_name)\n\n        result = b"-".join([word.capitalize() for word in bytes_name.split(b"-")])\n', '        result = self._remember(name, bytes_name)\n        if not _istoken(result):\n            raise InvalidHeaderName(bytes_name)\n        return result\n\n    def _remember(self, name, bytes_name):\n        result = b"-".join([word.capitalize() for word in bytes_name.split(b"-")])\n'),
+    Mutant("F19a-revert-target-upper-bound-176", HTTP, "if c <= 32 or c > 126:", "if c <= 32 or c > 176:"),
+    Mutant("empty-target-accepted", HTTP, "    if request == b\"\":\n        raise ValueError(\"Empty request-target\")\n", ""),
+    Mutant("version-prefix-only", HTTP, "if version != b\"HTTP/1.1\" and version != b\"HTTP/1.0\":", "if not version.startswith(b\"HTTP/1.\"):"),
+    Mutant("split-any-whitespace", HTTP, "method, request, version = line.split(b\" \")", "method, request, version = line.split()"),
+    Mutant("token-allows-colon", ABNF, "b\"!#$%&'*+-.^_`|~\"\n", "b\"!#$%&'*+-.^_`|~:\"\n"),
+    Mutant("hexdigits-allow-empty", ABNF, "            return False\n    return b != b\"\"\n\n\ndef _hexint", "            return False\n    return True\n\n\ndef _hexint"),
     Mutant("size-limit-no-return", HTTP, "            self._respondToBadRequestAndDisconnect()\n            return\n\n        if self.__first_line:",
-           "            self._respondToBadRequestAndDisconnect()\n\n        if self.__first_line:", expect_rule="reject/stop-after-400"),
+           "            self._respondToBadRequestAndDisconnect()\n\n        if self.__first_line:"),
     Mutant("bad-request-line-not-answered", HTTP, "            except ValueError:\n                self._respondToBadRequestAndDisconnect()\n                return\n",
-           "            except ValueError:\n                return\n", expect_rule="request-line/invalid-gives-400"),
-    Mutant("last-header-result-ignored", HTTP, "                if not ok:\n                    return\n", "", expect_rule="reject/result-used"),
-    Mutant("length-falsy-completes-chunked", HTTP, "            if self.length == 0:\n                self.allContentReceived()", "            if not self.length:\n                self.allContentReceived()",
-           expect_rule="framing/body-mode-from-length"),
-    Mutant("stale-header-kept", HTTP, "            self.__header = b\"\"\n            self.allHeadersReceived()", "            self.allHeadersReceived()", expect_rule="headers/stale-header-cleared"),
-    Mutant("nul-check-dropped", HTTP, "        if b\"\\x00\" in data:\n            self._respondToBadRequestAndDisconnect()\n            return False\n", "", expect_rule="header/nul-rejected"),
-    Mutant("nul-returns-true", HTTP, "        if b\"\\x00\" in data:\n            self._respondToBadRequestAndDisconnect()\n            return False", "        if b\"\\x00\" in data:\n            self._respondToBadRequestAndDisconnect()\n            return True",
-           expect_rule="reject/stop-after-400"),
-    Mutant("invalid-name-tolerated", HTTP, "        except InvalidHeaderName:\n            self._respondToBadRequestAndDisconnect()\n            return False", "        except InvalidHeaderName:\n            pass",
-           expect_rule="reject/handler-rejects"),
-    Mutant("value-strip-all-whitespace", HTTP, "        data = data.strip(b\" \\t\")\n        if b\"\\x00\" in data:", "        data = data.strip()\n        if b\"\\x00\" in data:", expect_rule="header/ows-strip"),
-    Mutant("raw-name-to-framing-decision", HTTP, "            header = _nameEncoder.encode(header)\n", "            _nameEncoder.encode(header)\n", expect_rule="header/"),
+           "            except ValueError:\n                return\n"),
+    Mutant("last-header-result-ignored", HTTP, "                if not ok:\n                    return\n", ""),
+    Mutant("length-falsy-completes-chunked", HTTP, "            if self.length == 0:\n                self.allContentReceived()", "            if not self.length:\n                self.allContentReceived()"),
+    Mutant("stale-header-kept", HTTP, "            self.__header = b\"\"\n            self.allHeadersReceived()", "            self.allHeadersReceived()"),
+    Mutant("nul-check-dropped", HTTP, "        if b\"\\x00\" in data:\n            self._respondToBadRequestAndDisconnect()\n            return False\n", ""),
+    Mutant("nul-returns-true", HTTP, "        if b\"\\x00\" in data:\n            self._respondToBadRequestAndDisconnect()\n            return False", "        if b\"\\x00\" in data:\n            self._respondToBadRequestAndDisconnect()\n            return True"),
+    Mutant("invalid-name-tolerated", HTTP, "        except InvalidHeaderName:\n            self._respondToBadRequestAndDisconnect()\n            return False", "        except InvalidHeaderName:\n            pass"),
+    Mutant("value-strip-all-whitespace", HTTP, "        data = data.strip(b\" \\t\")\n        if b\"\\x00\" in data:", "        data = data.strip()\n        if b\"\\x00\" in data:"),
+    Mutant("raw-name-to-framing-decision", HTTP, "            header = _nameEncoder.encode(header)\n", "            _nameEncoder.encode(header)\n"),
     Mutant("framing-decision-result-dropped", HTTP, "        if not self._maybeChooseTransferDecoder(header, data):\n            return False\n",
-           "        self._maybeChooseTransferDecoder(header, data)\n", expect_rule="reject/result-used"),
-    Mutant("content-length-lenient-digits", HTTP, "            if not data.isdigit():\n                return self._failChooseTransferDecoder()", "            if not data.strip().isdigit():\n                return self._failChooseTransferDecoder()",
-           expect_rule="framing/content-length-digits"),
-    Mutant("chunked-substring-match", HTTP, "            if data.lower() == b\"chunked\":", "            if b\"chunked\" in data.lower():", expect_rule="framing/transfer-coding"),
+           "        self._maybeChooseTransferDecoder(header, data)\n"),
+    Mutant("content-length-lenient-digits", HTTP, "            if not data.isdigit():\n                return self._failChooseTransferDecoder()", "            if not data.strip().isdigit():\n                return self._failChooseTransferDecoder()"),
+    Mutant("chunked-substring-match", HTTP, "            if data.lower() == b\"chunked\":", "            if b\"chunked\" in data.lower():"),
     Mutant("unknown-coding-accepted", HTTP, "                return True\n            else:\n                return self._failChooseTransferDecoder()\n        else:\n            # It's not a length",
-           "                return True\n            else:\n                return True\n        else:\n            # It's not a length", expect_rule="framing/transfer-coding"),
+           "                return True\n            else:\n                return True\n        else:\n            # It's not a length"),
     Mutant("conflicting-framing-last-wins", HTTP, "        if self._transferDecoder is not None:\n            return self._failChooseTransferDecoder()\n        else:\n            self.length = length",
-           "        if False:\n            return self._failChooseTransferDecoder()\n        else:\n            self.length = length", expect_rule="framing/conflict-rejected"),
-    Mutant("length-not-set-with-decoder", HTTP, "            self.length = length\n            self._transferDecoder = newTransferDecoder", "            self._transferDecoder = newTransferDecoder",
-           expect_rule="framing/"),
-    Mutant("fail-reports-success", HTTP, "        self.length = None\n        return False", "        self.length = None\n        return True", expect_rule="reject/"),
-    Mutant("lowercase-framing-literal", HTTP, "        if header == b\"Content-Length\":", "        if header == b\"Content-length\":", expect_rule="framing/canonical-literal"),
-    Mutant("400-without-close", HTTP, "        self.transport.write(b\"HTTP/1.1 400 Bad Request\\r\\n\\r\\n\")\n        self.loseConnection()", "        self.transport.write(b\"HTTP/1.1 400 Bad Request\\r\\n\\r\\n\")",
-           expect_rule="reject/400-then-close"),
-    Mutant("malformed-chunk-swallowed", HTTP, "        except _MalformedChunkedDataError:\n            self._respondToBadRequestAndDisconnect()", "        except _MalformedChunkedDataError:\n            pass",
-           expect_rule="reject/malformed-chunk-gives-400"),
-    Mutant("leftover-buffered-after-hand-over", HTTP, "        self._dataBuffer.append(data)\n        self.allContentReceived()", "        self.allContentReceived()\n        self._dataBuffer.append(data)",
-           expect_rule="framing/leftover-buffered-before-hand-over"),
-    Mutant("identity-boundary-off-by-one", HTTP, "        elif len(data) < self.contentLength:", "        elif len(data) <= self.contentLength:", expect_rule="body/identity-boundary"),
-    Mutant("identity-leftover-off-by-one", HTTP, "            finishCallback(data[contentLength:])", "            finishCallback(data[contentLength + 1 :])", expect_rule="body/leftover-split"),
-    Mutant("decoder-reset-after-call-out", HTTP, "        self._transferDecoder = None\n        del self._command, self._path, self._version", "        del self._command, self._path, self._version",
-           more=[(HTTP, "        req.requestReceived(command, path, version)\n", "        req.requestReceived(command, path, version)\n        self._transferDecoder = None\n")],
-           expect_rule="framing/state-reset-before-hand-over"),
-    Mutant("content-length-hex", HTTP, "            length = int(data)\n", "            length = int(data, 16)\n", expect_rule="framing/identity-length-is-content-length"),
-    Mutant("malformed-chunk-handler-narrowed", HTTP, "        except _MalformedChunkedDataError:\n            self._respondToBadRequestAndDisconnect()", "        except _DataLoss:\n            self._respondToBadRequestAndDisconnect()",
-           expect_rule="reject/malformed-chunk-gives-400"),
-    Mutant("header-rejected-but-reported-valid", HTTP, "        if not self._maybeChooseTransferDecoder(header, data):\n            return False", "        if not self._maybeChooseTransferDecoder(header, data):\n            return True",
-           expect_rule="reject/result-used"),
-    Mutant("token-first-byte-only", ABNF, "    for c in b:\n        if c not in (\n", "    for c in b[:1]:\n        if c not in (\n", expect_rule="byte-class/exact"),
+           "        if False:\n            return self._failChooseTransferDecoder()\n        else:\n            self.length = length"),
+    Mutant("length-not-set-with-decoder", HTTP, "            self.length = length\n            self._transferDecoder = newTransferDecoder", "            self._transferDecoder = newTransferDecoder"),
+    Mutant("fail-reports-success", HTTP, "        self.length = None\n        return False", "        self.length = None\n        return True"),
+    Mutant("lowercase-framing-literal", HTTP, "        if header == b\"Content-Length\":", "        if header == b\"Content-length\":"),
+    Mutant("400-without-close", HTTP, "        self.transport.write(b\"HTTP/1.1 400 Bad Request\\r\\n\\r\\n\")\n        self.loseConnection()", "        self.transport.write(b\"HTTP/1.1 400 Bad Request\\r\\n\\r\\n\")"),
+    Mutant("malformed-chunk-swallowed", HTTP, "        except _MalformedChunkedDataError:\n            self._respondToBadRequestAndDisconnect()", "        except _MalformedChunkedDataError:\n            pass"),
+    Mutant("leftover-buffered-after-hand-over", HTTP, "        self._dataBuffer.append(data)\n        self.allContentReceived()", "        self.allContentReceived()\n        self._dataBuffer.append(data)"),
+    Mutant("identity-boundary-off-by-one", HTTP, "        elif len(data) < self.contentLength:", "        elif len(data) <= self.contentLength:"),
+    Mutant("identity-leftover-off-by-one", HTTP, "            finishCallback(data[contentLength:])", "            finishCallback(data[contentLength + 1 :])"),
+    Mutant("content-length-hex", HTTP, "            length = int(data)\n", "            length = int(data, 16)\n"),
+    Mutant("malformed-chunk-handler-narrowed", HTTP, "        except _MalformedChunkedDataError:\n            self._respondToBadRequestAndDisconnect()", "        except _DataLoss:\n            self._respondToBadRequestAndDisconnect()"),
+    Mutant("header-rejected-but-reported-valid", HTTP, "        if not self._maybeChooseTransferDecoder(header, data):\n            return False", "        if not self._maybeChooseTransferDecoder(header, data):\n            return True"),
+    Mutant("token-first-byte-only", ABNF, "    for c in b:\n        if c not in (\n", "    for c in b[:1]:\n        if c not in (\n"),
     Mutant("invalid-name-logged-with-strict-decode", HTTP, "        except InvalidHeaderName:\n            self._respondToBadRequestAndDisconnect()\n            return False",
-           "        except InvalidHeaderName:\n            self._log.info(\"bad header name {n}\", n=header.decode(\"ascii\"))\n            self._respondToBadRequestAndDisconnect()\n            return False",
-           expect_rule="reject/reject-path-cannot-raise"),
+           "        except InvalidHeaderName:\n            self._log.info(\"bad header name {n}\", n=header.decode(\"ascii\"))\n            self._respondToBadRequestAndDisconnect()\n            return False"),
     Mutant("name-cache-before-validation", HDRS, "        if not _istoken(bytes_name):\n            raise InvalidHeaderName(bytes_name)\n\n        result =",
-           "        result =", expect_rule="header-name/"),
+           "        result ="),
 ]
 SILENT = [
+    Silent("header-prologue-in-helper", HTTP, "        try:\n            header, data = line.split(b\":\", 1)\n        except ValueError:\n            self._respondToBadRequestAndDisconnect()\n            return False\n",
+           "        pair = self._nameAndValue(line)\n        if pair is None:\n            self._respondToBadRequestAndDisconnect()\n            return False\n        header, data = pair\n",
+           more=[(HTTP, "    def allContentReceived(self):\n", "    def _nameAndValue(self, line):\n        name, colon, value = line.partition(b\":\")\n        if not colon:\n            return None\n        return name, value\n\n    def allContentReceived(self):\n")]),
+    Silent("end-of-headers-in-helper", HTTP, "            self.__header = b\"\"\n            self.allHeadersReceived()\n            if self.length == 0:\n                self.allContentReceived()\n            else:\n                self.setRawMode()",
+           "            self._headersDone()",
+           more=[(HTTP, "    def _finishRequestBody(self, data):\n", "    def _headersDone(self):\n        self.__header = b\"\"\n        self.allHeadersReceived()\n        if self.length != 0:\n            self.setRawMode()\n            return\n        self.allContentReceived()\n\n    def _finishRequestBody(self, data):\n")]),
+    Silent("identity-decoder-guard-clauses", HTTP, "        elif len(data) < self.contentLength:\n            self.contentLength -= len(data)\n            self.dataCallback(data)\n        else:",
+           "        elif len(data) < self.contentLength:\n            remaining = self.contentLength - len(data)\n            self.contentLength = remaining\n            self.dataCallback(data)\n        else:"),
+    Silent("encoder-without-walrus", HDRS, "        if canonicalName := self._canonicalHeaderCache.get(name):\n            return canonicalName\n", "        cached = self._canonicalHeaderCache.get(name)\n        if cached:\n            return cached\n"),
     Silent('token-regex-Z-anchored', ABNF, '    for c in b:\n        if c not in (\n            b"ABCDEFGHIJKLMNOPQRSTUVWXYZabcdefghijklmnopqrstuvwxyz"  # ALPHA\n            b"0123456789"  # DIGIT\n            b"!#$%&\'*+-.^_`|~"\n        ):\n            return False\n    return b != b""\n', '    return _TOKEN_RE.match(b) is not None\n', more=[(ABNF, '"""\n\n\ndef _istoken', '"""\n\nimport re\n\n_TOKEN_RE = re.compile(rb"[A-Za-z0-9!#$%&\'*+\\-.^_`|~]+\\Z")\n\n\ndef _istoken')]),
     Silent('token-regex-fullmatch', ABNF, '    for c in b:\n        if c not in (\n            b"ABCDEFGHIJKLMNOPQRSTUVWXYZabcdefghijklmnopqrstuvwxyz"  # ALPHA\n            b"0123456789"  # DIGIT\n            b"!#$%&\'*+-.^_`|~"\n        ):\n            return False\n    return b != b""\n', '    return _TOKEN_RE.fullmatch(b) is not None\n', more=[(ABNF, '"""\n\n\ndef _istoken', '"""\n\nimport re\n\n_TOKEN_RE = re.compile(rb"[A-Za-z0-9!#$%&\'*+\\-.^_`|~]+")\n\n\ndef _istoken')]),
     Silent('token-frozenset-all', ABNF, '    for c in b:\n        if c not in (\n            b"ABCDEFGHIJKLMNOPQRSTUVWXYZabcdefghijklmnopqrstuvwxyz"  # ALPHA\n            b"0123456789"  # DIGIT\n            b"!#$%&\'*+-.^_`|~"\n        ):\n            return False\n    return b != b""\n', '    return b != b"" and all(c in _TCHARS for c in b)\n', more=[(ABNF, '"""\n\n\ndef _istoken', '"""\n\n_TCHARS = frozenset(b"ABCDEFGHIJKLMNOPQRSTUVWXYZabcdefghijklmnopqrstuvwxyz0123456789!#$%&\'*+-.^_`|~")\n\n\ndef _istoken')]),
